@@ -55,7 +55,7 @@ class CountLogger(Logger):
             self.cnt[2] += 1
         elif isinstance(log, ExpirationLog):
             self.cnt[3] += 1
-            self.expired.append([log.order_id, log.volume])
+            self.expired.append([int(log.order_id), int(log.volume), int(log.time)])
 
     def write(self, log):
         self._count(log)
@@ -132,12 +132,13 @@ def history_rows(m, intern):
     cols = [getattr(m, g)(range(t)) for g in SERIES_FOR_HISTORY]
     out = []
     for i in range(t):
-        row = tuple(repr(c[i]) for c in cols) + index_columns(m, i)
+        row = tuple(repr(c[i]) for c in cols) + index_columns(m, i) + tuple(repr(getattr(m, g)(i)) for g in DERIVED_ACCESSORS)
         out.append(intern.setdefault(row, len(intern) + 1))
     return out
 
 
 INDEX_ACCESSORS = ["get_market_index", "get_index", "get_fundamental_index"]
+DERIVED_ACCESSORS = ["get_vwap"]            # derived from the recorded series: what it says about a past time stays as well
 
 
 def index_columns(m, i):
@@ -152,7 +153,7 @@ def current_row(m, intern):
     t = m.get_time()
     if t < 0:
         return 0
-    row = tuple(repr(getattr(m, g)([t])[0]) for g in SERIES_FOR_HISTORY) + index_columns(m, t)
+    row = tuple(repr(getattr(m, g)([t])[0]) for g in SERIES_FOR_HISTORY) + index_columns(m, t) + tuple(repr(getattr(m, g)(t)) for g in DERIVED_ACCESSORS)
     return intern.setdefault(row, len(intern) + 1)
 
 
